@@ -994,6 +994,62 @@ type c16Runner struct {
 	rep   *verifkit.Report
 	s     *Server
 	reqID uint64
+	// lastBoundaryID is the request id of the last HandleBefore observation.
+	lastBoundaryID uint64
+	// pending are requests whose processing stage has not read the cache yet.
+	pending []c16Pending
+	// stored counts the ClientIDs HandleBefore put into the cache so far.
+	stored int
+}
+
+// c16Pending is a request between HandleBefore and the processing stage:
+// other requests pass HandleBefore before its ClientID is read from the
+// cache, as happens whenever requests overlap.
+type c16Pending struct {
+	reqID  uint64
+	id     string
+	due    int
+	stored int
+	c      *c16Case
+}
+
+// c16PendingMax bounds the delay, far below the capacity of the cache (1024).
+const c16PendingMax = 6
+
+// defer_ registers the ClientID stored for the request.
+func (r *c16Runner) defer_(c *c16Case, reqID uint64, id string) {
+	r.stored++
+	r.pending = append(r.pending, c16Pending{reqID: reqID, id: id, due: r.stored + 1 + int(reqID%c16PendingMax),
+		stored: r.stored, c: c})
+}
+
+// readPending performs the processing-stage cache read of the requests that
+// are due (all of them if flush is set).
+func (r *c16Runner) readPending(flush bool) {
+	keep := r.pending[:0]
+	for _, p := range r.pending {
+		if !flush && r.stored < p.due {
+			keep = append(keep, p)
+
+			continue
+		}
+		var key [8]byte
+		binary.BigEndian.PutUint64(key[:], p.reqID)
+		got := string(r.s.clientIDCache.Get(key[:]))
+		r.rep.Event("delayed_cache_reads")
+		if r.stored > p.stored {
+			r.rep.Event("delayed_cache_reads_after_other_clientids_were_stored")
+		}
+		if got != p.id {
+			r.rep.Violate("cached-clientid-changed-before-processing",
+				fmt.Sprintf("HandleBefore stored ClientID %q for the request; after %d other requests with a ClientID passed HandleBefore the cache holds %q for it",
+					p.id, r.stored-p.stored, got),
+				map[string]any{"case": p.c, "request_id": p.reqID, "stored": p.id, "read_later": got,
+					"clientids_stored_in_between": r.stored - p.stored,
+					"interleaving":                "A.HandleBefore, B.HandleBefore ..., A's processing-stage read of clientIDCache"})
+		}
+	}
+	r.pending = keep
 }
 
 func (r *c16Runner) configure(c *c16Case) {
@@ -1011,9 +1067,14 @@ func (r *c16Runner) observe(c *c16Case) (b, d c16Obs, ok bool) {
 	}()
 	r.configure(c)
 	r.reqID++
+	r.lastBoundaryID = r.reqID
 	b = c16Boundary(r.s, c16Ctx(c, r.reqID))
 	r.reqID++
 	d = c16Direct(r.s, c16Ctx(c, r.reqID))
+	if !b.Failed && b.ID != "" {
+		r.defer_(c, r.lastBoundaryID, b.ID)
+	}
+	r.readPending(false)
 
 	return b, d, true
 }
@@ -1227,19 +1288,21 @@ func TestVerifC16(t *testing.T) {
 	rep.EventN("generated_cases", n)
 
 	c16Calibrate(t, r)
+	r.readPending(true)
 
 	// The run must have seen every kind of demand and every kind of outcome.
 	need := map[string]int{
-		"oracle_demands_exact_clientid":          2000,
-		"oracle_demands_failure:invalid-label":   1000,
-		"oracle_demands_failure:strict-outside":  500,
-		"oracle_demands_no_clientid_and_success": 500,
-		"oracle_accepts_several_outcomes":        1000,
-		"observed_clientid_in_cache":             2000,
-		"observed_servfail_responses":            2000,
-		"observed_no_clientid":                   2000,
-		"host_header_port_pairs_compared":        200,
-		"doh_url_parsed_from_request_target":     500,
+		"oracle_demands_exact_clientid":                         2000,
+		"oracle_demands_failure:invalid-label":                  1000,
+		"oracle_demands_failure:strict-outside":                 500,
+		"oracle_demands_no_clientid_and_success":                500,
+		"oracle_accepts_several_outcomes":                       1000,
+		"observed_clientid_in_cache":                            2000,
+		"observed_servfail_responses":                           2000,
+		"observed_no_clientid":                                  2000,
+		"host_header_port_pairs_compared":                       200,
+		"doh_url_parsed_from_request_target":                    500,
+		"delayed_cache_reads_after_other_clientids_were_stored": 2000,
 	}
 	keys := make([]string, 0, len(need))
 	for k := range need {
